@@ -39,9 +39,15 @@ namespace adept {
 	Real dir_scaling, // Scaling of direction vector
 	Real& cf, // Returned cost function
 	Real& grad, // Returned gradient in direction
-	Real curvature_coeff) // Factor by which gradient should reduce (0-1)
+	Real curvature_coeff, // Factor by which gradient should reduce (0-1)
+	const Vector* min_x, // Bounds on the state vector, if any
+	const Vector* max_x)
   {
     test_x = x + (step_size * dir_scaling) * direction;
+    if (min_x) {
+      // Rounding can carry a step to the bound slightly beyond it
+      test_x = max(*min_x, min(test_x, *max_x));
+    }
     cf = optimizable.calc_cost_function_gradient(test_x, gradient);
     ++n_samples_;
     state_up_to_date = -1;
@@ -96,7 +102,9 @@ namespace adept {
 	 Vector gradient, // Initial and possibly final gradient
 	 int& state_up_to_date, // 1 if gradient up-to-date, -1 otherwise
 	 Real curvature_coeff, // Factor by which gradient should reduce (0-1)
-	 Real bound_step_size) // Maximum step until bound is reached (-1 for no bound)
+	 Real bound_step_size, // Maximum step until bound is reached (-1 for no bound)
+	 const Vector* min_x, // Bounds on the state vector, if any
+	 const Vector* max_x)
   {
     Real dir_scaling = 1.0 / norm2(direction);
 
@@ -148,7 +156,7 @@ namespace adept {
 	= line_search_gradient_check(optimizable, x, direction, test_x,
 				     step_size, gradient, state_up_to_date,
 				     ss2, grad0, dir_scaling,
-				     cf2, grad2, curvature_coeff);
+				     cf2, grad2, curvature_coeff, min_x, max_x);
       if (status == MINIMIZER_STATUS_SUCCESS) {
 	if (at_bound) {
 	  status = MINIMIZER_STATUS_BOUND_REACHED;
@@ -161,6 +169,7 @@ namespace adept {
 	step_size = ss1;
 	if (ss1 > 0.0) {
 	  x += (ss1 * dir_scaling) * direction;
+	  if (min_x) { x = max(*min_x, min(x, *max_x)); }
 	  cost_function_ = cf1;
 	}
 	state_up_to_date = 0;
@@ -177,6 +186,7 @@ namespace adept {
 	// the maximum step size and the gradient points towards it:
 	// make this point the solution
 	x += (ss2 * dir_scaling) * direction;
+	if (min_x) { x = max(*min_x, min(x, *max_x)); }
 	step_size = ss2;
 	cost_function_ = cf2;
 	state_up_to_date = 1;
@@ -229,6 +239,7 @@ namespace adept {
 	if (cf1 < cf0) {
 	  // Return value at point 1
 	  x += (ss1 * dir_scaling) * direction;
+	  if (min_x) { x = max(*min_x, min(x, *max_x)); }
 	  step_size = ss1;
 	  cost_function_ = cf1;
 	  return MINIMIZER_STATUS_SUCCESS;
@@ -258,7 +269,7 @@ namespace adept {
 	= line_search_gradient_check(optimizable, x, direction, test_x,
 				     step_size, gradient, state_up_to_date,
 				     ss3, grad0, dir_scaling,
-				     cf3, grad3, curvature_coeff);
+				     cf3, grad3, curvature_coeff, min_x, max_x);
       if (status == MINIMIZER_STATUS_SUCCESS) {
 	return status;
       }
@@ -268,6 +279,7 @@ namespace adept {
 	step_size = ss1;
 	if (ss1 > 0.0) {
 	  x += (ss1 * dir_scaling) * direction;
+	  if (min_x) { x = max(*min_x, min(x, *max_x)); }
 	  cost_function_ = cf1;
 	}
 	state_up_to_date = 0;
@@ -302,12 +314,14 @@ namespace adept {
     if (cf2 < cf1) {
       // Return value at point 2
       x += (ss2 * dir_scaling) * direction;
+      if (min_x) { x = max(*min_x, min(x, *max_x)); }
       step_size = ss2;
       cost_function_ = cf2;  
     }
     else if (cf1 < cf0) {
       // Return value at point 1
       x += (ss1 * dir_scaling) * direction;
+      if (min_x) { x = max(*min_x, min(x, *max_x)); }
       step_size = ss1;
       cost_function_ = cf1;  
     }
